@@ -8,7 +8,7 @@ C07's M-VM (`QM.VM.transition … (.run O)`).
   and to `Load / Store / Reset / Jump / Get / IsType / Equal`; each abstract step is what `stepInstr` does
   to a process whose locals are `pre ++ L` with `pre.length = frame.localsBase`;
 * `compilePat_aruns` — compile_match's template for binder / placeholder / literal / flat tuple patterns:
-  success path (tests, then the bindings' Stores in field order, verdict `Ok`) and failure path (a failing
+  success path (tests, then the bindings' Stores in the order of the binders' names, verdict `Ok`) and failure path (a failing
   literal test jumps BACK to the fail jump, which enters the nil fill: one nil Store per binding, verdict
   nil) — **both paths store exactly `#bindings` locals**;
 * `compileT_aruns / compileCh_aruns / compileFs_aruns / compileSq_aruns` — by mutual induction, with
@@ -563,56 +563,52 @@ theorem fieldsPass_length : (subs : List Sub) → (vs : List Val) → (b : Bool)
     obtain ⟨b', hb', _⟩ := h
     simp [fieldsPass_length r vs b' hb']
 
-theorem fieldsBound_length : (subs : List Sub) → (vs : List Val) → subs.length = vs.length →
-    (fieldsBound subs vs).length = (subsBinds subs).length
-  | [], [], _ => rfl
-  | [], _ :: _, h => by simp at h
-  | _ :: _, [], h => by simp at h
-  | s :: r, v :: vs, h => by
-    have := fieldsBound_length r vs (by simpa using h)
-    cases s <;> simp [fieldsBound, subsBinds, subBound, subBinds, this]
+theorem bindVals_length : (bs : List (String × Nat)) → (vs out : List Val) →
+    bindVals bs vs = some out → out.length = bs.length
+  | [], _, out, h => by simp only [bindVals, Option.some.injEq] at h; subst h; rfl
+  | (x, k) :: r, vs, out, h => by
+    simp only [bindVals] at h
+    split at h
+    · rename_i v rest hv hr
+      simp only [Option.some.injEq] at h
+      subst h
+      simp [bindVals_length r vs rest hr]
+    · simp at h
 
-/-- the bindings of a tuple pattern: one `Store` per binder, in field order -/
-theorem bindsFields_aruns (id : Nat) (els : ValList) (rest : List Val) :
-    (subs : List Sub) → (k pc : Nat) → (L : List Val) →
-    C02S.Located code pc (bindsFields subs k) → subs.length = (els.toList.drop k).length →
+/-- the bindings of a tuple pattern: one `Store` per binder, in the order of the sorted binder list -/
+theorem bindsCode_aruns (id : Nat) (els : ValList) (rest : List Val) :
+    (bs : List (String × Nat)) → (pc : Nat) → (L out : List Val) →
+    C02S.Located code pc (bindsCode bs) → bindVals bs els.toList = some out →
     ARunsL O P code (pc, .tup id els :: rest, L)
-      (pc + (bindsFields subs k).length, .tup id els :: rest, L ++ fieldsBound subs (els.toList.drop k))
-  | [], k, pc, L, _, _ => by
-    cases hd : els.toList.drop k <;> simpa [bindsFields, fieldsBound] using ARunsL.refl _
-  | sb :: r, k, pc, L, hl, hlen => by
-    cases hd : els.toList.drop k with
-    | nil => rw [hd] at hlen; simp at hlen
-    | cons v vs =>
-      rw [hd] at hlen
-      obtain ⟨hk, hk1⟩ := drop_cons_getElem? _ _ _ _ hd
-      have hlen' : r.length = (els.toList.drop (k + 1)).length := by rw [hk1]; simpa using hlen
-      cases sb with
-      | wild =>
-        have := bindsFields_aruns id els rest r (k + 1) pc L (by simpa [bindsFields] using hl) hlen'
-        simpa [bindsFields, fieldsBound, subBound, hk1] using this
-      | lit z ci =>
-        have := bindsFields_aruns id els rest r (k + 1) pc L (by simpa [bindsFields] using hl) hlen'
-        simpa [bindsFields, fieldsBound, subBound, hk1] using this
-      | bind x =>
-        have hl1 : C02S.Located code pc (.duplicate :: .get k :: .store :: bindsFields r (k + 1)) := by
-          simpa [bindsFields] using hl
-        have h0 := hl1.head
-        have t1 := Located.tail hl1
-        have h1 := t1.head
-        have t2 := Located.tail t1
-        have h2 := t2.head
-        have t3 := Located.tail t2
-        have a := l_dup (O := O) (P := P) (v := Val.tup id els) (s := rest) (L := L) h0
-        have g := l_get (O := O) (P := P) (id := id) (els := els) (e := v) (s := Val.tup id els :: rest) (L := L) h1 hk
-        have st := l_store (O := O) (P := P) (v := v) (s := Val.tup id els :: rest) (L := L) h2
-        have ih := bindsFields_aruns id els rest r (k + 1) (pc + 1 + 1 + 1) (L ++ [v]) t3 hlen'
-        have := ((a.trans g).trans st).trans ih
-        simp only [bindsFields, fieldsBound, subBound, hk1] at this ⊢
-        have e2 : pc + ([Instr.duplicate, Instr.get k, Instr.store] ++ bindsFields r (k + 1)).length =
-            pc + 1 + 1 + 1 + (bindsFields r (k + 1)).length := by simp; omega
-        rw [e2]
-        simpa using this
+      (pc + (bindsCode bs).length, .tup id els :: rest, L ++ out)
+  | [], pc, L, out, _, h => by
+    simp only [bindVals, Option.some.injEq] at h
+    subst h
+    simpa [bindsCode] using ARunsL.refl _
+  | (x, k) :: r, pc, L, out, hl, h => by
+    simp only [bindVals] at h
+    split at h
+    · rename_i v vs hv hr
+      simp only [Option.some.injEq] at h
+      subst h
+      have hl1 : C02S.Located code pc (.duplicate :: .get k :: .store :: bindsCode r) := by
+        simpa [bindsCode] using hl
+      have h0 := hl1.head
+      have t1 := Located.tail hl1
+      have h1 := t1.head
+      have t2 := Located.tail t1
+      have h2 := t2.head
+      have t3 := Located.tail t2
+      have a := l_dup (O := O) (P := P) (v := Val.tup id els) (s := rest) (L := L) h0
+      have g := l_get (O := O) (P := P) (id := id) (els := els) (e := v) (s := Val.tup id els :: rest) (L := L) h1 hv
+      have st := l_store (O := O) (P := P) (v := v) (s := Val.tup id els :: rest) (L := L) h2
+      have ih := bindsCode_aruns id els rest r (pc + 1 + 1 + 1) (L ++ [v]) vs t3 hr
+      have := ((a.trans g).trans st).trans ih
+      have e2 : pc + (bindsCode ((x, k) :: r)).length = pc + 1 + 1 + 1 + (bindsCode r).length := by
+        simp [bindsCode]; omega
+      rw [e2]
+      simpa using this
+    · simp at h
 
 theorem matchCode_length (tests binds : List Instr) (nb : Nat) :
     (matchCode tests binds nb).length = 2 + tests.length + binds.length + 3 + 2 * nb + 2 := by
@@ -737,25 +733,25 @@ theorem compilePat_aruns (hO : OracleIntEq O) (hP : wfProg P) (hsz : code.size <
       | none => rw [hfp] at hev; simp at hev
       | some b =>
         rw [hfp] at hev
-        have hlen := fieldsPass_length subs els.toList b hfp
         have ht := testsFields_aruns (O := O) (P := P) hO hsz pc id els rest L subs 0 2 b (matchCode_tests hl) hw
           (by simpa using hfp)
-        have hb : b = true → ARunsL O P code (pc + 2 + (testsFields subs 0 2).length, .tup id els :: rest, L)
-            (pc + 2 + (testsFields subs 0 2).length + (bindsFields subs 0).length, .tup id els :: rest,
-              L ++ fieldsBound subs els.toList) := by
-          intro _
-          have := bindsFields_aruns (O := O) (P := P) id els rest subs 0 _ L (matchCode_binds hl) (by simpa using hlen)
-          simpa using this
-        have main := matchCode_aruns (O := O) hP hsz (testsFields subs 0 2) (bindsFields subs 0)
-          (subsBinds subs).length pc (.tup id els) rest L b (fieldsBound subs els.toList) hl ht hb
         cases b with
         | true =>
-          simp only [Option.some.injEq, Prod.mk.injEq] at hev
-          obtain ⟨rfl, rfl⟩ := hev
-          exact ⟨by simpa using main, by simpa [patBinds] using fieldsBound_length subs els.toList hlen⟩
+          simp only [Option.map_eq_some_iff, Prod.mk.injEq] at hev
+          obtain ⟨vs, hvs, rfl, rfl⟩ := hev
+          have hb : true = true → ARunsL O P code (pc + 2 + (testsFields subs 0 2).length, .tup id els :: rest, L)
+              (pc + 2 + (testsFields subs 0 2).length + (bindsCode (sortB (binders subs 0))).length,
+                .tup id els :: rest, L ++ vs) := by
+            intro _
+            exact bindsCode_aruns (O := O) (P := P) id els rest _ _ L vs (matchCode_binds hl) hvs
+          have main := matchCode_aruns (O := O) hP hsz (testsFields subs 0 2) (bindsCode (sortB (binders subs 0)))
+            (subsBinds subs).length pc (.tup id els) rest L true vs hl ht hb
+          exact ⟨by simpa using main, by simpa [patBinds, subsBinds] using bindVals_length _ _ _ hvs⟩
         | false =>
           simp only [Option.some.injEq, Prod.mk.injEq] at hev
           obtain ⟨rfl, rfl⟩ := hev
+          have main := matchCode_aruns (O := O) hP hsz (testsFields subs 0 2) (bindsCode (sortB (binders subs 0)))
+            (subsBinds subs).length pc (.tup id els) rest L false [] hl ht (by intro h; cases h)
           exact ⟨by simpa using main, by simp [patBinds]⟩
     | int z => simp at hev
     | bin b => simp at hev
